@@ -1,5 +1,5 @@
 import Rivaas.Proto
-import Rivaas.Model.CompressAsIs
+import Rivaas.Model.Compress
 import Rivaas.Spec.Compress
 /-
 Driver for C15. Case line:
@@ -104,16 +104,19 @@ def outsMatch : List WOut → List OutObs → Bool
       | _ => (m.err == .ok) == (o.err == .ok)) && outsMatch ms os
   | _, _ => false
 
+/-- a key with no values produces no header line -/
+def lines (h : Hdrs) : Hdrs := h.filter (fun kv => !kv.2.isEmpty)
+
 def obsMatchesPlain (m : Base × List WOut) (o : Option ObsR) : Bool :=
   match o with
   | none => m.1.panicked
-  | some r => !m.1.panicked && m.1.resp.status == r.obs.status && heq m.1.resp.hdrs r.obs.hdrs &&
+  | some r => !m.1.panicked && m.1.resp.status == r.obs.status && heq (lines m.1.resp.hdrs) r.obs.hdrs &&
       r.obs.decoded == some m.1.resp.body && outsMatch m.2 r.outs
 
 def obsMatchesWith (m : WithResp) (o : Option ObsR) : Bool :=
   match o with
   | none => m.panicked
-  | some r => !m.panicked && m.resp.status == r.obs.status && heq m.resp.hdrs r.obs.hdrs &&
+  | some r => !m.panicked && m.resp.status == r.obs.status && heq (lines m.resp.hdrs) r.obs.hdrs &&
       r.obs.decoded == m.decoded && outsMatch m.outs r.outs
 
 def showWith (m : WithResp) : String :=
@@ -128,7 +131,7 @@ def step (line : String) : String :=
     | some c, some (op, ow) =>
       let sn := sniffOf c.sniffTab
       let mp := runPlain sn c.ops
-      let mw := runWithAsIs sn c.cfg c.path c.ae c.ops
+      let mw := if c.asis then runWithAsIs sn c.cfg c.path c.ae c.ops else runWith sn c.cfg c.path c.ae c.ops
       let mi := obsMatchesPlain mp op && obsMatchesWith mw ow
       -- the oracle, on what the implementation did
       let s := match op, ow with
@@ -136,7 +139,8 @@ def step (line : String) : String :=
           transparentObs p.obs w.obs && encodingOK c.ae p.obs w.obs && writeContract (writeLens c.ops) w.outs
         | none, _ => true      -- the program is outside the domain (it makes the bare writer panic)
         | some _, none => false
-      verdict id mi s "-" (String.ofList ((showWith mw).toList.map (fun c => if c == ' ' then '_' else c)))
+      let d := if !s && panicMidstream c.ops then "panic-midstream" else "-"
+      verdict id mi s d (String.ofList ((showWith mw).toList.map (fun c => if c == ' ' then '_' else c)))
     | _, _ => s!"{id} bad-case"
 
 end Rivaas.DriverC15
